@@ -54,7 +54,8 @@ Lemma discover_roots_app tree : forall roots acc acc',
 Proof.
   induction roots as [|r roots IH]; intros acc acc' H; cbn in H.
   - inversion H; subst. cbn. rewrite app_nil_r. reflexivity.
-  - destruct (add_all acc (discover_root tree r)) as [a|e|e] eqn:E; cbn in H; try discriminate.
+  - destruct (nameless (discover_root tree r)); [discriminate|].
+    destruct (add_all acc (discover_root tree r)) as [a|e|e] eqn:E; cbn in H; try discriminate.
     apply add_all_app in E. subst a. apply IH in H. rewrite H. unfold raw_discovered. cbn [flat_map].
     rewrite app_assoc. reflexivity.
 Qed.
@@ -64,24 +65,27 @@ Lemma discover_roots_nodup_source tree : forall roots acc acc',
 Proof.
   induction roots as [|r roots IH]; intros acc acc' H Hnd; cbn in H.
   - inversion H; subst. exact Hnd.
-  - destruct (add_all acc (discover_root tree r)) as [a|e|e] eqn:E; cbn in H; try discriminate.
+  - destruct (nameless (discover_root tree r)); [discriminate|].
+    destruct (add_all acc (discover_root tree r)) as [a|e|e] eqn:E; cbn in H; try discriminate.
     eapply IH; [exact H|]. eapply add_all_nodup_source; eauto.
 Qed.
 
 Lemma discover_roots_not_panic tree : forall roots acc why, discover_roots tree acc roots <> Panic why.
 Proof.
   induction roots as [|r roots IH]; intros acc why; cbn; [discriminate|].
+  destruct (nameless (discover_root tree r)); [discriminate|].
   destruct (add_all acc (discover_root tree r)) as [a|e|e] eqn:E; cbn; [apply IH|discriminate|].
   exfalso. exact (add_all_not_panic _ _ _ E).
 Qed.
 
 Lemma discover_roots_err tree : forall roots acc e,
-  discover_roots tree acc roots = Err e -> e = E_DUP_NAME \/ e = E_DUP_SOURCE.
+  discover_roots tree acc roots = Err e -> e = E_DUP_NAME \/ e = E_DUP_SOURCE \/ e = E_ROOT.
 Proof.
   induction roots as [|r roots IH]; intros acc e H; cbn in H; [discriminate|].
+  destruct (nameless (discover_root tree r)); [inversion H; auto|].
   destruct (add_all acc (discover_root tree r)) as [a|e'|e'] eqn:E; cbn in H.
   - eapply IH; exact H.
-  - inversion H; subst. eapply add_all_err; exact E.
+  - inversion H; subst. destruct (add_all_err _ _ _ E); auto.
   - discriminate.
 Qed.
 
@@ -115,7 +119,7 @@ Lemma discover_err_codes tree roots e :
 Proof.
   unfold discover. destruct (resolve_roots tree [] roots); [|intros H; inversion H; auto].
   destruct (discover_roots tree [] roots) as [l|e'|e'] eqn:E; cbn; intros H; inversion H; subst.
-  destruct (discover_roots_err _ _ _ _ E); auto.
+  exact (discover_roots_err _ _ _ _ E).
 Qed.
 
 Lemma nodup_split_neq {A} (f : spec -> A) l1 s1 l2 s2 l3 :
@@ -160,18 +164,39 @@ Proof.
   - exfalso. exact (discover_not_panic _ _ _ Ed).
 Qed.
 
-(** With valid roots, the first collision in walk order decides: no E_ROOT. *)
-Theorem name_collision_valid_roots : forall tree roots l1 s1 l2 s2 l3,
-  resolve_roots tree [] roots = true ->
-  raw_discovered tree roots = l1 ++ s1 :: l2 ++ s2 :: l3 ->
-  sp_name s1 = sp_name s2 ->
-  discover tree roots = Err E_DUP_NAME \/ discover tree roots = Err E_DUP_SOURCE.
+(** discovered names are never empty *)
+Lemma add_all_incl : forall l acc acc', add_all acc l = Ok acc' -> forall s, In s acc' -> In s acc \/ In s l.
 Proof.
-  intros tree roots l1 s1 l2 s2 l3 Hr Hraw Hname.
-  destruct (any_name_collision_fails _ _ _ _ _ _ _ Hraw Hname) as (e & He & _ & _).
-  revert He. unfold discover. rewrite Hr.
-  destruct (discover_roots tree [] roots) as [l|e'|e'] eqn:E; cbn; intros H; inversion H; subst.
-  destruct (discover_roots_err _ _ _ _ E) as [-> | ->]; auto.
+  intros l acc acc' H s Hs. apply add_all_app in H. subst acc'. apply in_app_or in Hs. exact Hs.
+Qed.
+
+Lemma nameless_false l : nameless l = false -> forall s, In s l -> sp_name s <> [].
+Proof.
+  unfold nameless. intros H s Hs E.
+  assert (existsb (fun s => match sp_name s with [] => true | _ => false end) l = true).
+  { apply existsb_exists. exists s. split; [exact Hs|]. rewrite E. reflexivity. }
+  congruence.
+Qed.
+
+Lemma discover_roots_named tree : forall roots acc acc',
+  discover_roots tree acc roots = Ok acc' -> (forall s, In s acc -> sp_name s <> []) -> forall s, In s acc' -> sp_name s <> [].
+Proof.
+  induction roots as [|r roots IH]; intros acc acc' H Hacc; cbn in H.
+  - inversion H; subst. exact Hacc.
+  - destruct (nameless (discover_root tree r)) eqn:En; [discriminate|].
+    destruct (add_all acc (discover_root tree r)) as [a|e|e] eqn:E; cbn in H; try discriminate.
+    eapply IH; [exact H|]. intros s Hs. destruct (add_all_incl _ _ _ E s Hs) as [H1|H1]; [exact (Hacc s H1)|].
+    exact (nameless_false _ En s H1).
+Qed.
+
+Theorem discover_ok_named : forall tree roots specs,
+  discover tree roots = Ok specs -> forall s, In s specs -> sp_name s <> [].
+Proof.
+  intros tree roots specs. unfold discover.
+  destruct (resolve_roots tree [] roots); [|discriminate].
+  destruct (discover_roots tree [] roots) as [l|e|e] eqn:E; cbn; intros H; inversion H; subst.
+  intros s Hs. apply (discover_roots_named _ _ _ _ E); [intros s' []|].
+  eapply Permutation_in; [apply Permutation_sym; apply sort_by_name_perm|exact Hs].
 Qed.
 
 (** ------------------------------------------------------------------ the bare/working-tree twin rule
